@@ -163,6 +163,7 @@ def errStr : LoadErr → String
   | .wrongFrontendProtocol => "wrong-frontend-protocol"
   | .proxyProtocolMix => "proxy-protocol-mix"
   | .bufferTooSmallForH2 => "buffer-too-small-for-h2"
+  | .invalidHealthCheck => "invalid-health-check"
 
 def explicitOf (d : DS) : List (Proto × Nat) := d.decl.listeners.map fun l => (l.proto, l.addr)
 
